@@ -526,7 +526,10 @@ class Static:
 
 _LOOP: Any = None
 _SUSPENDING: Any = None
-LOADER_KINDS = ("dict", "suspend", "fs")
+LOADER_KINDS = ("dict", "suspend", "fs", "route", "route-suspend")
+_ROUTED: dict[str, Any] = {}
+ROUTE_PREFIX = "snippets/"
+ROUTED_TAGS = ("include", "render")
 
 
 def run_async(coro: Any) -> Any:
@@ -558,6 +561,42 @@ def suspending_loader(templates: dict[str, str]) -> Any:
 
         _SUSPENDING = SuspendingDictLoader
     return _SUSPENDING(templates)
+
+
+def routed_loader(physical: dict[str, str], kind: str) -> Any:
+    """Loaders that use the load context, as docs/loading_templates.md "Load context" shows:
+    `route`: targets of include/render are served from 'snippets/' (keyword argument `tag`), and
+    only when the caller passed a render context; `route-suspend`: same, async path suspends;
+    `relative`: a name is first resolved against the directory of `context.template`."""
+    if not _ROUTED:
+        from liquid2 import DictLoader
+        from liquid2.exceptions import TemplateNotFoundError
+
+        class RoutedLoader(DictLoader):
+            def get_source(self, env, template_name, *, context=None, **kwargs):  # noqa: ANN001, ANN003, ANN202
+                if kwargs.get("tag") in ROUTED_TAGS:
+                    if context is None:
+                        raise TemplateNotFoundError(template_name)
+                    template_name = ROUTE_PREFIX + template_name
+                return super().get_source(env, template_name, context=context, **kwargs)
+
+        class SuspendingRoutedLoader(RoutedLoader):
+            async def get_source_async(self, env, template_name, *, context=None, **kwargs):  # noqa: ANN001, ANN003, ANN202
+                for _ in range(1 + sum(map(ord, template_name)) % 3):
+                    await asyncio.sleep(0)
+                return self.get_source(env, template_name, context=context, **kwargs)
+
+        class RelativeLoader(DictLoader):
+            def get_source(self, env, template_name, *, context=None, **kwargs):  # noqa: ANN001, ANN003, ANN202
+                cur = getattr(getattr(context, "template", None), "path", None)
+                if cur and "/" in str(cur) and "tag" in kwargs:
+                    rel = str(cur).rsplit("/", 1)[0] + "/" + template_name
+                    if rel in self.templates:
+                        template_name = rel
+                return super().get_source(env, template_name, context=context, **kwargs)
+
+        _ROUTED.update({"route": RoutedLoader, "route-suspend": SuspendingRoutedLoader, "relative": RelativeLoader})
+    return _ROUTED[kind](physical)
 
 
 class Case:
@@ -592,6 +631,14 @@ class Case:
             loader: Any = FileSystemLoader(self.tmp)
         elif kind == "suspend":
             loader = suspending_loader(self.templates)
+        elif kind in ("route", "route-suspend"):
+            parts = set(case.get("partials") or ())
+            physical = {(ROUTE_PREFIX + n if n in parts else n): src for n, src in self.templates.items()}
+            for n, src in (case.get("decoys") or {}).items():
+                physical.setdefault(n, src)  # what a caller that forgets the load context gets
+            loader = routed_loader(physical, kind)
+        elif kind == "relative":
+            loader = routed_loader(dict(self.templates), kind)
         else:
             loader = DictLoader(self.templates)
         try:
@@ -1219,8 +1266,8 @@ def _run_case(chk: Checker, case: dict[str, Any], only: str | None, holder: list
     try:
         cs = Case(case)
         holder.append(cs)
-        for n in cs.templates:
-            cs.env.get_template(n)
+        for src0 in list(cs.templates.values()) + list((case.get("decoys") or {}).values()):
+            cs.env.from_string(src0)
     except LiquidError:
         chk.count("cases_rejected:do-not-parse")
         return None
@@ -1231,7 +1278,8 @@ def _run_case(chk: Checker, case: dict[str, Any], only: str | None, holder: list
     try:
         a = cs.t.analyze(include_partials=inc)
     except TemplateNotFoundError as e:
-        if str(e).split("\n")[0].strip() not in cs.templates:
+        missing = str(e).split("\n")[0].strip()
+        if missing not in cs.templates and missing.removeprefix(ROUTE_PREFIX) not in cs.templates:
             chk.count("cases_rejected:template-outside-the-set")
             return None
         return [(f"analyze:raised:{type(e).__name__}", f"analyze() raised {type(e).__name__}: {e}", {})]
@@ -1323,6 +1371,18 @@ def _run_case(chk: Checker, case: dict[str, Any], only: str | None, holder: list
                 ctx.count("written_paths")
                 if (src, a0, b0) in chk.case_exec:
                     ctx.count("written_paths_executed")
+    mech = case.get("mechanism")
+    if mech:
+        # a hand probe of ONE named mechanism: its runtime-fact violations carry that name
+        def rekey(k: str) -> str:
+            if "implicit-config" in k or "@resolve:" in k:
+                return k
+            for pre in ("vars:missing@", "filters:missing@", "tags:missing@", "tags:missing:", "globals:missing:"):
+                if k.startswith(pre):
+                    return pre.replace("tags:missing:", "tags:missing@") + mech
+            return k
+
+        out = [(rekey(k), w, d) for k, w, d in out]
     # one report per (key, location)
     seen: set[tuple] = set()
     uniq = []
